@@ -148,10 +148,20 @@ class FadingSampleGenerator:
         new_shape : None | int | tuple[int]
             The shape of the generated channel.
         """
-        if isinstance(new_shape, int):
-            self._shape = (new_shape, )
+        # The shape is validated and converted to a tuple of Python ints
+        # before anything is stored: an invalid shape is refused without
+        # changing the generator, and the generator never shares (and
+        # never changes with) a list passed by the caller.
+        if new_shape is None:
+            self._shape = None
+            return
+        if isinstance(new_shape, (int, np.integer)):
+            dims: Shape = (int(new_shape), )
         else:
-            self._shape = new_shape
+            dims = tuple(operator.index(d) for d in new_shape)
+        if any(d < 0 for d in dims):
+            raise ValueError("negative dimensions are not allowed")
+        self._shape = dims
 
     def get_samples(self) -> np.ndarray:
         """
